@@ -4,6 +4,7 @@ import re
 from ..ir import E
 from .. import q
 from ..fsm import state_outcomes, reaches, find_path, reachable
+from ..flow import reg_flow
 
 TITLE = 'USB2 reset / chirp / suspend sequencing'
 FLOOR = 30
@@ -26,71 +27,6 @@ DECIDES = ('On the FSM of USBResetSequencer, states identified by what they do (
 NOT_DECIDED = 'glitch-level line-state histories and the analog side of chirping.'
 US = 60          # cycles per microsecond at the 60 MHz UTMI clock
 LS, FS = 'self.low_speed_only', 'self.full_speed_only'
-
-
-def _flag_flow(ir, fsm, flag):
-    """Possible values of a 1-bit register in every FSM state, by forward dataflow to a fixpoint.  Returns
-    (after, possible): after(edge, values_before) = set of values the register can hold once `edge` was taken."""
-    drv = sorted(ir.drivers(flag, exact=True), key=lambda a: a.order)
-
-    def vals(a):
-        return {a.rhs.val & 1} if isinstance(a.rhs, E) and a.rhs.op == 'const' else {0, 1}
-
-    def consistent(g, h):
-        d = dict(h)
-        return all(d.get(k, v) == v for k, v in g)
-
-    def after(e, before):
-        g = q.atoms(e)
-        here = [a for a in drv if a.state is None or a.state == e.state]
-        sure = [a for a in here if q.atoms(a) <= g]
-        out = set()
-        if sure:
-            last = sure[-1]
-            out |= vals(last)
-            later = [a for a in here if a.order > last.order and a not in sure and consistent(q.atoms(a), g)]
-        else:
-            out |= set(before)
-            later = [a for a in here if consistent(q.atoms(a), g)]
-        for a in later:
-            out |= vals(a)
-        return out
-
-    si = ir.signals[flag]
-    possible = {s: set() for s in fsm.states}
-    possible[fsm.init] = {(si.init or 0) & 1}
-    changed = True
-    while changed:
-        changed = False
-        for s in fsm.states:
-            if not possible[s] and s != fsm.init:
-                continue
-            # staying in s: any writer of the flag in s may fire
-            stay = set(possible[s])
-            for a in drv:
-                if a.state is None or a.state == (fsm.id, s):
-                    stay |= vals(a)
-            # (only writers that can fire without leaving matter, adding all of them is a sound over-approximation
-            #  for the state itself; edges are evaluated exactly against the values on entry)
-            for e in fsm.out_edges(s):
-                new = after(e, possible[s] | (stay if _can_stay_and_write(fsm, s, drv, e) else set()))
-                if not new <= possible[e.dst]:
-                    possible[e.dst] |= new
-                    changed = True
-    return after, possible
-
-
-def _can_stay_and_write(fsm, s, drv, e):
-    """True when some writer of the flag in state s can fire in a cycle in which the FSM stays in s (then the value on a
-    later edge out of s may be the written one)."""
-    for a in drv:
-        if a.state is not None and a.state != (fsm.id, s):
-            continue
-        ga = q.atoms(a)
-        # the writer fires together with an edge leaving s whenever its guard contains that edge's guard
-        if not any(q.atoms(x) <= ga for x in fsm.out_edges(s) if x.dst != s):
-            return True
-    return False
 
 
 def run(ctx):
@@ -249,7 +185,7 @@ def run(ctx):
              and ir.signals[a_].w == 1 and any(d.domain != 'comb' for d in ir.drivers(a_, exact=True))}
     ctx.need(len(flags) == 1, 'the registered flag tested on the resume edge into high speed (found %s)' % sorted(flags))
     flag = flags.pop()
-    after, possible = _flag_flow(ir, fsm, flag)
+    after, possible = reg_flow(ir, fsm, flag)
     for e in fsm.in_edges(susp):
         want_v = {1} if e.src == detect else {0}
         got = after(e, possible[e.src])
